@@ -202,6 +202,24 @@ PROPS['C20'] = dict(
           'reply()/reply_owned() for 8 capacity pairs, lengths around each capacity, and an independent Python reading of the inbound packet.',
     note='Trusted: Coq kernel, model, extraction, harness, reply hook. No axioms.')
 
+PROPS['C10'] = dict(
+    sess=[('py_c10', 400, 6000), ('sess_c10', 150, 2500)],
+    events='wrft', state=['ka', 'np', 'pt', 'now', 'conn', 'live', 'ctl'],
+    monitors=[M.mon_c10],
+    title='keep-alive: PINGREQ cadence and dead-peer detection follow the negotiated time',
+    claim='Proved in Coq for all keep-alive values and all instants (unbounded N milliseconds): every completed outbound packet '
+          'and every CONNACK schedule the next PINGREQ at now + K - min(5 s, K/2) <= now + K; a PINGREQ is queued exactly when '
+          'that instant has been reached (ties included), none is outstanding and none is queued; the wait deadline is the earlier '
+          'of the two timers; the timeout is armed only by the flush of a PINGREQ, exactly 5 s after it, it fires at that instant '
+          'and never before, a PINGRESP clears it for good; with keep-alive 0 no ping is scheduled or queued in any reachable world '
+          '(invariant through the machine refinement); for K >= 10 s a PINGREQ is never blocked by an outstanding one. The full gap '
+          'statement is REFUTED for K < 5 s (C10_gap_refuted_small_keepalive; known finding K10). The instants at which the machine '
+          'calls these functions (virtual clock, wait rule, I/O-wins ties) are tied to the code by differential runs with timers '
+          'compared after every action and checked by a virtual-time monitor on the implementation traces.',
+    note='Partial: the trace-level gap bound for K >= 5 s is established per step (scheduling, queuing, arming, firing) plus the '
+         'monitor, not as one theorem over whole executions. Trusted: Coq kernel, model, extraction, harness with its virtual '
+         'embassy time driver. No axioms. Known finding K10 (keep-alive < 5 s) is reported as KNOWN-FINDING.')
+
 TRUSTED_BASE = [
     'Coq 8.16.1 kernel and its bytecode VM (vm_compute); native_compute is not used',
     'axioms: none (every property theorem is reported "Closed under the global context" by Print Assumptions)',
